@@ -209,9 +209,10 @@ def run(tier: str) -> int:
     with Workdir(PROP) as wd:
         cases = []
         for label, cs, nsl, slices in STAGE[tier]:
-            stages.model_check(chk, "Costs", cs, INVS, wd=wd, label="A:" + label)
             if slices is not None:
                 slices = sorted({(s + chk.seed) % nsl for s in slices})
+            cs_a = cs if cs["N"] * cs["P"] <= 6 else dict(cs, NSlices=max(nsl, 8), Slice=chk.seed % max(nsl, 8))   # one slice of large spaces
+            stages.model_check(chk, "Costs", cs_a, INVS, wd=wd, label="A:" + label)
             cases += stages.emit_cases(chk, "Costs", cs, wd=wd, label="B:" + label, invariants=("EmitFitted",),
                                        nslices=nsl, slices=slices)
         uniq = {}
